@@ -546,14 +546,16 @@ func (c *compiler) compile(tok *token) []instruction {
 	case "block", ",":
 		res = append(res, c.compileAll(tok.Tokens)...)
 	case "return":
-		if len(tok.Tokens) == 1 && tok.Tokens[0].Symbol == "call" {
-			returns := c.compileAll(tok.Tokens)
-			returns[len(returns)-1].B = reg(c.Returns[len(c.Returns)-1])
-			res = append(res, returns...)
-			res = append(res, instruction{Code: codeReturn, A: reg(c.Returns[len(c.Returns)-1])})
-			break
-		}
 		returns := c.compileAll(tok.Tokens)
+		if len(tok.Tokens) == 1 && tok.Tokens[0].Symbol == "call" {
+			// forward all results of a function call; builtins and conversions yield one value
+			if last := &returns[len(returns)-1]; last.Code == codeCall || last.Code == codeCallVariadic {
+				last.B = reg(c.Returns[len(c.Returns)-1])
+				res = append(res, returns...)
+				res = append(res, instruction{Code: codeReturn, A: reg(c.Returns[len(c.Returns)-1])})
+				break
+			}
+		}
 		res = append(res, returns...)
 		res = append(res, instruction{Code: codeReturn, A: reg(len(tok.Tokens))})
 	case "call":
